@@ -6,7 +6,9 @@ Line protocol of engine `queue`.
 `script <mode 0|1|0t|1t> <op> <op> …` — model-guided run (T-step). Mode: `1` = short flush interval,
 `t` = tiny `shutdown_timeout`. Ops:
   `new:<cap>` (must be first) | `append:<h>:<o|v|i>` | `clone:<h>` | `drop:<h>` | `gate:<k>` | `flush` |
-  `forget` | `dropjoin` | `fclose` | `fopen` (the flush gate: while shut every `stream.flush()` blocks)
+  `forget` | `dropjoin` | `dropjoinU` | `dropjoinT` | `dropU:<h>` | `fclose` | `fopen` (the flush gate: while shut every `stream.flush()` blocks)
+(`dropjoinU` / `dropjoinT` / `dropU` are drops performed while the dropping thread unwinds from a panic:
+in the model they are the same events as `dropjoin` / `drop`.)
 After every op the writer is run to quiescence (`settleG`: until it parks, is held inside `next` or
 `flush`, or has exited) under the clock on which no flush-interval deadline fires (the shutdown
 deadline fires iff `t`); with a short interval a parked writer additionally performs one timed-out
@@ -22,6 +24,9 @@ is the single word `clock-dependent` and the harness skips the script.
 `barrier | <before p.k …> | <lost p.k …> | <calls n.p.k | f | r …>` — T-trace: evaluates `Queue.Spec.barrierAt`
 (theorem `c04_spec_accepts`) on the stream calls recorded up to the completion of a flush future.
 Both reply `accept` or `reject`.
+
+`subscribed <n before> <n after>` — validation failures before / after the environment installs a tracing
+subscriber (model event `setSubscriber`): reply `reports_before=… reports_after=… delivered=…`.
 
 `hww <cap> <op> …` — the waker state machine alone. Ops `s` (send a flush signal) |
 `h:<d|t>:<count>` (`handle_waiting_wakers` with Drained / HitDeadline). Reply per op:
@@ -48,10 +53,13 @@ def parseOp (s : String) : Option Op :=
   | ["append", h, r] => do some (.append (← h.toNat?) (← parseRes r))
   | ["clone", h] => h.toNat?.map fun _ => .clone
   | ["drop", h] => h.toNat?.map fun _ => .drop
+  | ["dropU", h] => h.toNat?.map fun _ => .drop        -- handle dropped while its thread unwinds: same event
   | ["gate", k] => k.toNat?.map .gate
   | ["flush"] => some .flush
   | ["forget"] => some .forget
   | ["dropjoin"] => some .dropjoin
+  | ["dropjoinU"] => some .dropjoin                    -- join handle dropped by an unwinding panic (catch_unwind)
+  | ["dropjoinT"] => some .dropjoin                    -- … owned by a thread that panics and is joined
   | ["fclose"] => some .fclose
   | ["fopen"] => some .fopen
   | _ => none
@@ -268,6 +276,25 @@ def handleSpec (ws : List String) : String :=
     | _, _, _ => "bad-op"
   | _ => "bad-op"
 
+/-! the subscriber stage: `subscribed <n before> <n after>` — `n before` entries with a validation error are
+pushed and written with no tracing subscriber (the rate limiter lets every report through), then the
+environment installs a subscriber (`setSubscriber true`), then `n after` more. Reply: the number of in-band
+reports in the history before and after the installation. -/
+
+def reportCount (log : List Obs) : Nat := (log.filter fun | .report => true | _ => false).length
+
+def pushAndWrite (s : QState) : Option QState := do
+  let s ← applyAll s [.push 0, .unpark 0]
+  some (settle fuel ⟨false, false, false, true⟩ s 1000000).1
+
+def runSubscribed (nb na : Nat) : Option String := do
+  let s0 := (settle fuel (quietClock true) (init 64 (fun _ => .validation) true) 1000000).1
+  let s1 ← (List.range nb).foldlM (fun s _ => pushAndWrite s) s0
+  let before := reportCount s1.log
+  let s2 ← step s1 (.setSubscriber true)
+  let s3 ← (List.range na).foldlM (fun s _ => pushAndWrite s) s2
+  some s!"reports_before={before} reports_after={reportCount s3.log - before} delivered={(delivered s3.log).length}"
+
 def handle (line : String) : String :=
   match (line.trimAscii.toString.splitOn " ").filter (· ≠ "") with
   | "script" :: sh :: ops =>
@@ -283,6 +310,10 @@ def handle (line : String) : String :=
       | some rs => if rs.isEmpty then "-" else joinWith ";" rs
       | none => "bad-op"
     | none => "bad-op"
+  | ["subscribed", nb, na] =>
+    match nb.toNat?, na.toNat? with
+    | some nb, some na => (runSubscribed nb na).getD "bad-op"
+    | _, _ => "bad-op"
   | "order" :: rest => handleSpec ("order" :: rest)
   | "barrier" :: rest => handleSpec ("barrier" :: rest)
   | _ => "bad-op"
